@@ -98,7 +98,7 @@ fn is_token(w: &str) -> bool {
 fn words_of(inl: &[scan::SInline], in_link: bool, out: &mut Vec<(String, bool)>) {
     for i in inl {
         match i {
-            scan::SInline::Text(t) | scan::SInline::Code(t) => {
+            scan::SInline::Text(t) => {
                 for w in t.split(|c: char| !c.is_alphanumeric()) {
                     if is_token(w) {
                         out.push((w.to_string(), in_link));
@@ -125,13 +125,7 @@ pub fn tokens(text: &str) -> Vec<Tok> {
         for (w, l) in ws {
             out.push(Tok { word: w, path: path.to_vec(), in_link: l, line: lines.line_of(b.span.0) });
         }
-        if matches!(b.kind, BKind::Code { .. }) {
-            for w in b.text.split(|c: char| !c.is_alphanumeric()) {
-                if is_token(w) {
-                    out.push(Tok { word: w.to_string(), path: path.to_vec(), in_link: false, line: lines.line_of(b.span.0) });
-                }
-            }
-        }
+        // (code bodies are random text, not unique tokens: they are compared as whole bodies elsewhere)
         for c in &b.children {
             rec(c, path, lines, out);
         }
@@ -193,4 +187,17 @@ pub fn dump(before: &Lib, after: &Lib) -> String {
         }
     }
     d
+}
+
+/// multiset of code block bodies of a text
+pub fn code_bodies(text: &str) -> Vec<String> {
+    let s = scan::scan(text);
+    let mut out = vec![];
+    scan::walk(&s.blocks, &mut |b, _| {
+        if matches!(b.kind, BKind::Code { .. }) {
+            out.push(b.text.lines().map(|l| l.trim_end()).collect::<Vec<_>>().join("\n").trim_matches('\n').to_string());
+        }
+    });
+    out.sort();
+    out
 }
